@@ -18,23 +18,6 @@ theorem no_target_sensitive :
     (facts.all fun f => !(inP f && (f.kind == "target_cfg" || f.kind == "usize_sens" || (f.kind == "ptr" && !f.test)))) = true := by
   decide +kernel
 
-/-- pointer-width-sensitive integer casts in non-test code of the portable path.  Widening a `usize`
-(a `len()`) to `u64`/`u128` is the same on every target and is not restricted.  What can differ between
-32- and 64-bit targets is a cast *to* `usize`/`isize` (truncates a wider source on 32-bit) and a narrowing
-cast of a length; those are exactly: the buffered length (≤ 32) narrowed to `u32` for the checkpoint count,
-and the `u32` checkpoint count widened to `usize` (clamped to 31 right away); casts between fixed-width
-integers are not restricted -/
-def allowedSizeCasts : List String := ["self.buffer.len() as u32", "len as usize"]
-def endsWith (s suf : String) : Bool := isPrefix suf.toList.reverse s.toList.reverse
-def wideningCast (d : String) : Bool := endsWith d " as u64" || endsWith d " as u128"
-theorem casts_inventory :
-    (facts.all fun f => !(inP f && f.kind == "cast" && !f.test &&
-        (has f.detail "usize" || has f.detail "isize" || has f.detail "len()"))
-      || wideningCast f.detail || allowedSizeCasts.contains f.detail) = true := by
-  decide +kernel
-
-example : wideningCast "bytes.len() as u64" = true ∧ wideningCast "size as usize" = false := by decide +kernel
-
 theorem conv_nonvacuous : (facts.filter fun f => inP f && f.kind == "conv").length ≥ 4 := by decide +kernel
 
 end HH.C17
